@@ -81,14 +81,14 @@ _P = {
  'C17': entry('Lean 4 proof (cache state machine refinement: every read returns the matrix of the current epoch) + history-based correspondence',
     'Theorems C17_refinement (StateSpace rate-matrix cache), share_refinement (state spaces shared by Inference.get_coal) and memo_refinement / memo_order_irrelevant / memo_fresh_equiv (functools.cache on moment, _accumulate, _get_P and the '
     'cached_property slots: every query history answers like the memo-free evaluator); real code: random query histories vs fresh objects, cache off, shared state spaces '
-    'through Inference.get_coal, parallel vs sequential; hit/miss pattern and answers diffed against both models.', 'Process-pool scheduling is runtime (partial). '),
+    'through Inference.get_coal, parallel vs sequential; hit/miss pattern and answers diffed against both models; the concrete cache key (EpochKey: key_sound_table, cache_instantiated_table) with real Epoch == / hash on random pairs.', 'Process-pool scheduling is runtime (partial). '),
  'C18': entry('Lean 4 proof on a model with the codec as a parameter + round-trip oracle on the real code', 
     'Theorems: round trip preserves statistics because statistics depend on the configuration only (C17 refinement), original untouched, idempotent; '
     'field level: roundtrip_dict_coalescent / roundtrip_dict_inference / roundtrip_x0_stable on the __getstate__/__setstate__ dict model; '
     'real round trips via string and file for Coalescent, SFS2, Inference; configuration fields and start points diffed against the model.', 'jsonpickle/dill correctness is the parameter law (partial by construction). '),
  'C19': entry('Lean 4 proof (best-run selection, merge order independence, bootstrap rows, create_run start values) + invariant oracle on real runs',
     'Theorems C19_best, C19_merge, C19_bootstrap_rows, C19_create_run, and at dict level C19_labels_within_bounds / C19_labels_order_irrelevant (x0 listed in any key order) '
-    'with the optimiser as a parameter; real tiny inference problems: invariants, reproducibility, cache on/off, merge histories; _run/_optimize labelling diffed against the model.', 'L-BFGS-B behaviour is a parameter (partial). '),
+    'with the optimiser as a parameter; real tiny inference problems: invariants, reproducibility, cache on/off, merge histories; _run/_optimize labelling diffed against the model; the loss functions (LossThm: norms zero iff equal, Poisson NLL minimal exactly at the truth, best_run_is_truth_*) with the real compute() against the defining formulas and the exact model.', 'L-BFGS-B behaviour is a parameter (partial). '),
  'C20': entry('Lean 4 proof (validate is complete and sound for the invalid classes) + malformed-input correspondence',
     'Theorems C20_complete / C20_sound on the model of the constructor checks, api_length_mismatch_rejected / api_negative_order_rejected on the model of the call layer; '
     'real code fed every invalid class by every route and valid neighbours; stiff sweep for silent NaN.', 'NaN clause is runtime exploration (partial). '),
